@@ -226,7 +226,36 @@ def cases(run, rng):
         if not s4.startswith("EXC") and "%su%s %sal%s" % (q, q, aq, aq) not in s4:
             record("defining:update-from", "Table", "update-from", qc, s4, "... FROM \"u\" alias ...")
         SEEN["i"] += 4
-        yield {"label": "sources", "corr": [], "expr": "1", "known": None, "describe": {}}
+        # every form of a table source, in FROM, JOIN and UPDATE .. FROM: the aliased source is the un-aliased one followed by the alias
+        tables = {"plain": lambda: P.Table("u"), "schema": lambda: P.Table("u", schema="sch"), "schema-chain": lambda: P.Table("u", schema=["db", "sch"]),
+                  "temporal": lambda: P.Table("u").for_(P.SYSTEM_TIME.as_of("2020-01-01")),
+                  "temporal-between": lambda: P.Table("u").for_(P.SYSTEM_TIME.between("2020-01-01", "2020-02-01")),
+                  "portion": lambda: P.Table("u").for_portion(P.SYSTEM_TIME.from_to("2020-01-01", "2020-02-01")),
+                  "schema-temporal": lambda: P.Table("u", schema="sch").for_(P.SYSTEM_TIME.as_of("2020-01-01"))}
+        corr = []
+        for tn, mk in tables.items():
+            positions = {"from": lambda x: qc.from_(x).select(T.Star()).where(T.Field("zq") == 1),
+                         "from-second": lambda x: qc.from_(t).from_(x).select(T.Star()).where(T.Field("zq") == 1),
+                         "join": lambda x: qc.from_(t).join(x).on(T.Field("zq") == 1).select(T.Star()),
+                         "update-from": lambda x: qc.update(t).set(T.Field("x"), 1).from_(x).where(T.Field("zq") == 1)}
+            for pn, pf in positions.items():
+                try:
+                    q0, q1 = pf(mk()), pf(mk().as_("al"))
+                except Exception:
+                    continue
+                a0, a1 = sql(q0, ctx), sql(q1, ctx)
+                if a0.startswith("EXC") or a1.startswith("EXC"):
+                    continue
+                SEEN["i"] += 1
+                mark = " ON " if pn == "join" else " WHERE "
+                if a0.count(mark) == 1:
+                    i = a0.index(mark)
+                    exp = a0[:i] + " %sal%s" % (aq, aq) + a0[i:]
+                    if a1 != exp:
+                        record("defining:table-source", "Table", "%s table as %s" % (tn, pn), qc, a1, exp)
+                if pn in ("from", "join"):
+                    corr.append((q1, [(QNAMES[qc], ctx, "inline")]))
+        yield {"label": "sources", "corr": corr, "expr": "1", "known": None, "describe": {}}
 
 
 class LazyViolations:
